@@ -180,8 +180,10 @@ class CSSStyleSheet(css_parser.stylesheets.StyleSheet):
                 return expected
             elif rule.wellformed:
                 self.insertRule(rule)
+                return 1
 
-            return 1
+            # a malformed statement is skipped as if it were absent
+            return expected
 
         def importrule(expected, seq, token, tokenizer):
             # parse and consume tokens in any case
@@ -194,8 +196,9 @@ class CSSStyleSheet(css_parser.stylesheets.StyleSheet):
                 return expected
             elif rule.wellformed:
                 self.insertRule(rule)
+                return 1
 
-            return 1
+            return expected
 
         def namespacerule(expected, seq, token, tokenizer):
             # parse and consume tokens in any case
@@ -217,8 +220,9 @@ class CSSStyleSheet(css_parser.stylesheets.StyleSheet):
                             r._replaceNamespaceURI(rule.namespaceURI)
 
                 self._namespaces[rule.prefix] = rule.namespaceURI
+                return 2
 
-            return 2
+            return expected
 
         def variablesrule(expected, seq, token, tokenizer):
             # parse and consume tokens in any case
@@ -232,8 +236,9 @@ class CSSStyleSheet(css_parser.stylesheets.StyleSheet):
             elif rule.wellformed:
                 self.insertRule(rule)
                 self._updateVariables()
+                return 2
 
-            return 2
+            return expected
 
         def fontfacerule(expected, seq, token, tokenizer):
             # parse and consume tokens in any case
@@ -241,7 +246,8 @@ class CSSStyleSheet(css_parser.stylesheets.StyleSheet):
             rule.cssText = self._tokensupto2(tokenizer, token)
             if rule.wellformed:
                 self.insertRule(rule)
-            return 3
+                return 3
+            return expected
 
         def mediarule(expected, seq, token, tokenizer):
             # parse and consume tokens in any case
@@ -249,7 +255,8 @@ class CSSStyleSheet(css_parser.stylesheets.StyleSheet):
             rule.cssText = self._tokensupto2(tokenizer, token)
             if rule.wellformed:
                 self.insertRule(rule)
-            return 3
+                return 3
+            return expected
 
         def pagerule(expected, seq, token, tokenizer):
             # parse and consume tokens in any case
@@ -257,7 +264,8 @@ class CSSStyleSheet(css_parser.stylesheets.StyleSheet):
             rule.cssText = self._tokensupto2(tokenizer, token)
             if rule.wellformed:
                 self.insertRule(rule)
-            return 3
+                return 3
+            return expected
 
         def unknownrule(expected, seq, token, tokenizer):
             # parse and consume tokens in any case
@@ -284,7 +292,8 @@ class CSSStyleSheet(css_parser.stylesheets.StyleSheet):
             rule.cssText = self._tokensupto2(tokenizer, token)
             if rule.wellformed:
                 self.insertRule(rule)
-            return 3
+                return 3
+            return expected
 
         # save for possible reset
         oldCssRules = self.cssRules
